@@ -368,7 +368,7 @@ impl Prop for C17 {
             let cfg = if ch.bool() { FrontCfg::default_cfg() } else { FrontCfg::generate(ch) };
             let solver_choice = ch.below(6);
             let sweep_seed: Vec<u32> = (0..40).map(|_| ch.next()).collect();
-            let case = execs::pick_case(ch, &snippets, 7, 5);
+            let case = execs::pick_case_bl(ch, &snippets, 7, 5, 2);
             let meta = if case.source.len() < 2500 && solver_choice % 2 == 0 { MetaCfg { linear_gas: true, linear_ap: false } } else { MetaCfg::linear() };
             let src_hash = hash_str(&case.source);
             let mut layout_cache: Option<Result<trace::Layout, String>> = None;
